@@ -65,6 +65,18 @@ pub enum Cert {
     Rsa4096,
     NegativeSerial,
     EmptySubject,
+    /// self-signed, in the trust file, validity 2020..2021
+    Expired,
+    /// self-signed, in the trust file, validity 2090..2099
+    NotYetValid,
+    /// leaf signed by a root that is in the trust file (only the leaf is presented)
+    ChainTrusted,
+    /// leaf signed by a root that is NOT in the trust file
+    ChainUntrusted,
+    /// leaf naming the trusted root as its issuer but signed by another key
+    Forged,
+    /// trusted certificate A with one signature bit flipped (same subject, same key)
+    TamperedA,
     /// certificates derived from a valid one by DER surgery (signature no longer valid: only usable with
     /// certificate checking off); index into ODD_CERTS
     Odd(u8),
@@ -73,6 +85,10 @@ pub enum Cert {
 pub const ODD_CERTS: [&str; 10] = ["x509v1", "version4", "gentime", "badtime", "serial40", "unusedbits", "bmpsubject", "t61subject", "dupext", "emptyext"];
 
 impl Cert {
+    /// does a verifier holding the harness trust file accept this certificate today
+    pub fn trusted(&self) -> bool {
+        matches!(self, Cert::A | Cert::B | Cert::ChainTrusted)
+    }
     pub fn files(&self) -> (String, String) {
         if let Cert::Odd(i) = self {
             return (format!("odd-{}.cert.pem", ODD_CERTS[*i as usize % ODD_CERTS.len()]), "v1.key.pem".to_string());
@@ -88,6 +104,12 @@ impl Cert {
             Cert::Rsa4096 => ("big.cert.pem", "big.key.pem"),
             Cert::NegativeSerial => ("neg.cert.pem", "v1.key.pem"),
             Cert::EmptySubject => ("nosubj.cert.pem", "v1.key.pem"),
+            Cert::Expired => ("exp.cert.pem", "exp.key.pem"),
+            Cert::NotYetValid => ("fut.cert.pem", "fut.key.pem"),
+            Cert::ChainTrusted => ("leaf.cert.pem", "leaf.key.pem"),
+            Cert::ChainUntrusted => ("uleaf.cert.pem", "uleaf.key.pem"),
+            Cert::Forged => ("forged.cert.pem", "forged.key.pem"),
+            Cert::TamperedA => ("tamper.cert.pem", "a.key.pem"),
             Cert::Odd(_) => unreachable!(),
         };
         (c.to_string(), k.to_string())
